@@ -1,3 +1,4 @@
+import re
 from dataclasses import dataclass, field
 from functools import cached_property, partial, partialmethod
 
@@ -33,26 +34,22 @@ class TapeRecorder:
     def __getattr__(self, basis_blade):
         if not re.match(r'^e[0-9a-fA-F]*$', basis_blade):
             raise AttributeError(f'{self.__class__.__name__} object has no attribute or basis blade {basis_blade}')
-        if basis_blade not in self.algebra.canon2bin:
-            return self.__class__(
-                algebra=self.algebra,
-                expr=f"(0,)",
-                keys=(0,)
-            )
+        basis_blade, swaps = self.algebra._blade2canon(basis_blade)
         try:
             idx = self.keys().index(self.algebra.canon2bin[basis_blade])
-        except ValueError:
+        except (KeyError, ValueError):
             return self.__class__(
                 algebra=self.algebra,
                 expr=f"(0,)",
                 keys=(0,)
             )
-        else:
-            return self.__class__(
-                algebra=self.algebra,
-                expr=f"({self.expr}[{idx}],)",
-                keys=(self.keys()[idx],)
-            )
+        # Like MultiVector.__getattr__, this is the (scalar) coefficient of the blade.
+        sign = '-' if swaps % 2 else ''
+        return self.__class__(
+            algebra=self.algebra,
+            expr=f"({sign}{self.expr}[{idx}],)",
+            keys=(0,)
+        )
 
     def grade(self, *grades):
         if len(grades) == 1 and isinstance(grades[0], tuple):
@@ -108,9 +105,17 @@ class TapeRecorder:
         if power == 0:
             return self.__class__(self.algebra, expr='(1,)', keys=(0,))
 
-        res = self
+        if power < 0:
+            res = x = self.inv()
+            power *= -1
+        else:
+            res = x = self
+
+        if power == 0.5:
+            return res.sqrt()
+
         for i in range(1, power):
-            res = res.gp(self)
+            res = res.gp(x)
         return res
 
     # Unary operators
